@@ -212,7 +212,7 @@ theorem stream_strict (md5 : List Nat → List Nat) (cfg : SubCfg) (st : StereoC
     (hbs : 16 ≤ bs ∧ bs < 2 ^ 16) (hb : 4 ≤ bps ∧ bps ≤ 24) (hrate : 1 ≤ rate ∧ rate < 2 ^ 20)
     (hx : ∀ c ∈ chans, ∀ x ∈ c, SubFrame.inRange bps x = true) (hmax : cfg.maxP ≤ 14)
     (hnb : (total + bs - 1) / bs ≤ 2 ^ 31)
-    (hlog : ∀ e ∈ log, e.Ok) (hfit : StreamFits log (blocksOf bs chans))
+    (hlog : ∀ e ∈ log, e.Ok)
     (h : encodeStream md5 cfg st bs chans bps rate log = some (s, log')) :
     ∃ sb rep, s.bits rfcCrc8 rfcCrc16 = some sb ∧ analyzeRec md5 (packBytes sb) = .ok rep ∧
       rep.audio = chans ∧ rep.info.rate = rate ∧ rep.info.channels = chans.length ∧ rep.info.bps = bps ∧
@@ -244,7 +244,7 @@ theorem stream_strict (md5 : List Nat → List Nat) (cfg : SubCfg) (st : StereoC
       omega
   obtain ⟨fbs, reps, hm1, hm2, hfl, hfbs, hrd, hc1, hc2, hc3⟩ := readFrames_encodeFrames cfg st bps rate
     chans.length bs (readInfo si) hri hch hbs.2 ⟨by omega, hb.2⟩ hmax (blocksOf bs chans) 0 log l1 frames
-    (blocksOf_ok bs chans total chans.length bps hbs1 hch.1 rfl hlen hx) (by rw [hnbl]; omega) hlog hfit hfr
+    (blocksOf_ok bs chans total chans.length bps hbs1 hch.1 rfl hlen hx) (by rw [hnbl]; omega) hlog hfr
   have hcnt : counts = fbs.map List.length := by
     rw [hm2] at hcounts
     exact (Option.some.inj hcounts).symm
